@@ -8,6 +8,10 @@ NOTES = ("Driver: /verif/verif (python3, stdlib). Every check rebuilds harness/c
          "Known findings: /verif/KNOWN_FINDINGS.txt (read-only at run time). VERIF_SEED selects the rapid seeds; sweeps ignore it.")
 
 CLAIMED = {
+ "C08": dict(
+    technique="fuzzing + property-based testing: one target per packet decoder, RFC-layout sample packets with located length-like fields, boundary/wrap-around overrides, exhaustive per-slot sweeps, native coverage-guided fuzzing (thorough); totality monitor as oracle",
+    level_text="24 decoder entry points are driven with well-formed packets whose length-like fields (IHL, total length, header-extension length, option length, hardware length, data offset, source/group counts, aux length, DHCP/LLDP lengths) are overridden from boundary and wrap-around sets, truncated, byte-mutated, amplified to jumbo size, plus raw strings; the sweep enumerates every truncation, every 0x00/0xff byte, all 256 values of each one-byte slot and k*64 / k*16384 values of each two-byte slot on sample packets. Oracle: no panic, return within 20 s, < 1 GiB heap growth, allocation <= 1 KiB/byte + 4 MiB.",
+    level_note="Sampling; allocation volume as proxy for proportional work; inputs <= 9216 bytes."),
  "C07": dict(
     technique="fuzzing + property-based testing: rapid-driven structure-aware hostile generators over conformant seed frames, exhaustive truncation/byte sweeps, Go native coverage-guided fuzzing (thorough), with a totality monitor (panic / hang / heap / allocation envelope) as oracle",
     level_text="Conformant frames of every kind from the independent encoder are mutated field-aware (structural slots incl. the carried packet's length fields, boundary values, adjacent pairs), byte-wise, spliced, and amplified to the 64 KiB frame limit; every truncation offset and single-byte 0x00/0xff overwrite of seed frames is enumerated; thorough adds 240 s of native coverage-guided fuzzing. Each input must give (message|error), no panic, return within 20 s, < 1 GiB heap growth and allocation within 1 KiB/byte + 4 MiB.",
@@ -57,4 +61,4 @@ for k in CLAIMED:
     ENGINES[0]["serves_properties"].append(k)
 
 NOT_APPLICABLE = {p: "check under construction in this round (design in DESIGN.md section 10); not claimed until it runs clean on the unchanged tree"
-                  for p in ["C05","C06","C08","C09","C10","C11","C12","C13"]}
+                  for p in ["C05","C06","C09","C10","C11","C12","C13"]}
